@@ -130,6 +130,7 @@ type c08Universe struct {
 	// names[nPlainShort:nShort] are the edge names; pats[nPlainPats:] the edge patterns
 	nPlainShort int
 	nPlainPats  int
+	tag         string // "" = main universe; otherwise the name of the additional alphabet (counter prefix)
 }
 
 func c08Case(name string) *conformancev1.TestCase {
@@ -166,6 +167,43 @@ func c08NewUniverse() *c08Universe {
 	u.nPat3 = c08CountSeqs(4, 3)
 	u.nPlainPats = len(u.pats)
 	u.pats = append(u.pats, c08EdgePatterns...) // at the end: the prefixes nPat2 / nPat3 stay what they were
+	u.fill()
+	return u
+}
+
+// Blank alphabet (round 5): a component is any text between two slashes,
+// blanks and tabs included; a pattern is the text that was supplied, so the
+// literal "a " equals the name component "a " and not "a", " " is a component
+// of one blank (not the empty one). (Only a pattern *file* drops the whitespace
+// around a line; that rule belongs to the file reader and is judged in
+// c08-collect.) Letters: plain, trailing blank, leading blank, trailing tab, a
+// lone blank.
+var c08BlankLetters = []string{"a", "a ", " a", "a\t", " "} //nolint:gochecknoglobals
+
+// c08NewBlankUniverse: all names over the blank alphabet of length <= 2 (30, all
+// with a mask bit; libraries: every subset of <= 3 of the one-component names
+// and every library of <= 2 names with a two-component name) and all patterns
+// over the blank alphabet + {*, **} of length <= 2 (56). Every phase of
+// TestVerifC08Match runs over it as over the main universe ("length <= 2" and
+// "length <= 3" prefixes: the 7 one-component patterns resp. all 56).
+func c08NewBlankUniverse() *c08Universe {
+	u := &c08Universe{tag: "blank-alphabet"}
+	u.names = c08Seqs(c08BlankLetters, 2)
+	u.nShort = len(u.names)
+	u.nPlainShort = len(c08BlankLetters)
+	palpha := append(append([]string{}, c08BlankLetters...), "*", "**")
+	u.pats = c08Seqs(palpha, 2)
+	u.nPat2 = len(palpha)
+	u.nPat3 = len(u.pats)
+	u.nPlainPats = len(u.pats)
+	u.fill()
+	return u
+}
+
+func (u *c08Universe) fill() {
+	if u.nShort > 32 {
+		panic("c08: more than 32 names with a mask bit")
+	}
 	for _, n := range u.names {
 		u.cases = append(u.cases, c08Case(n))
 	}
@@ -190,7 +228,6 @@ func c08NewUniverse() *c08Universe {
 			}
 		}
 	}
-	return u
 }
 
 // via returns the key suffix that tells whether a composite failure (filter,
@@ -393,6 +430,14 @@ func (c *c08Run) next() bool {
 	return true
 }
 
+// count: free counter, prefixed with the name of the additional alphabet.
+func (c *c08Run) count(name string, n int64) {
+	if c.u.tag != "" {
+		name = c.u.tag + ":" + name
+	}
+	c.r.Count(name, n)
+}
+
 func c08Bool(b bool) string {
 	if b {
 		return "true"
@@ -453,7 +498,7 @@ func (c *c08Run) phaseMatch() {
 		}
 		r.Eval(int64(len(u.names)))
 		c.matchSet([]int{pi})
-		r.Count("sets-size1", 1)
+		c.count("sets-size1", 1)
 	}
 	// size 2, both insertion orders, all patterns of length <= 4
 	for p := range u.pats {
@@ -462,7 +507,7 @@ func (c *c08Run) phaseMatch() {
 				continue
 			}
 			c.matchSet([]int{p, q})
-			r.Count("sets-size2", 1)
+			c.count("sets-size2", 1)
 		}
 	}
 	// size 3, every insertion order
@@ -477,7 +522,7 @@ func (c *c08Run) phaseMatch() {
 					continue
 				}
 				c.matchSet([]int{p, q, s})
-				r.Count("sets-size3", 1)
+				c.count("sets-size3", 1)
 			}
 		}
 	}
@@ -491,7 +536,7 @@ func (c *c08Run) phaseMatch() {
 				c.matchSet([]int{e, p, q})
 				c.matchSet([]int{p, e, q})
 				c.matchSet([]int{p, q, e})
-				r.Count("sets-size3-with-edge-pattern", 3)
+				c.count("sets-size3-with-edge-pattern", 3)
 			}
 		}
 	}
@@ -565,7 +610,7 @@ func (c *c08Run) acceptOne(run, skip []int) {
 	if len(run)+len(skip) <= 2 {
 		got, panicked := c08Apply(runS, skipS, u.cases)
 		r.Eval(1)
-		rp := c08Replay{Kind: "apply", Run: runS, Skip: skipS}
+		rp := c08Replay{Kind: "apply", Run: runS, Skip: skipS, Names: u.names}
 		if panicked != "" {
 			r.Violate("panic", fmt.Sprintf("filter.apply with run=%q skip=%q panicked: %s", runS, skipS, panicked), rp)
 		} else if strings.Join(got, " ") != strings.Join(wantApplied, " ") {
@@ -601,7 +646,7 @@ func (c *c08Run) phaseAccept() {
 				skip = []int{q}
 			}
 			c.acceptOne(run, skip)
-			c.r.Count("filters-0or1-x-0or1", 1)
+			c.count("filters-0or1-x-0or1", 1)
 		}
 	}
 	// pairs on one side (both insertion orders), none or single on the other
@@ -624,7 +669,7 @@ func (c *c08Run) phaseAccept() {
 				}
 				c.acceptOne([]int{p, q}, other)
 				c.acceptOne(other, []int{p, q})
-				c.r.Count("filters-2-x-0or1", 2)
+				c.count("filters-2-x-0or1", 2)
 			}
 		}
 	}
@@ -760,13 +805,17 @@ func (c *c08Run) tryOne(set []int, nameSets []c08NameSet) {
 func (c *c08Run) phaseTry() {
 	u := c.u
 	nameSets := u.nameSets()
-	c.r.Extra["try_name_sets"] = len(nameSets)
+	if u.tag == "" {
+		c.r.Extra["try_name_sets"] = len(nameSets)
+	} else {
+		c.r.Extra[u.tag+":try_name_sets"] = len(nameSets)
+	}
 	for p := range u.pats {
 		if !c.next() {
 			continue
 		}
 		c.tryOne([]int{p}, nameSets)
-		c.r.Count("try-sets-size1", 1)
+		c.count("try-sets-size1", 1)
 	}
 	n := u.nPat3
 	if rep.Thorough() {
@@ -778,7 +827,7 @@ func (c *c08Run) phaseTry() {
 				continue
 			}
 			c.tryOne([]int{p, q}, nameSets)
-			c.r.Count("try-sets-size2", 1)
+			c.count("try-sets-size2", 1)
 		}
 	}
 	// an edge pattern next to an ordinary one (length <= 2) or another edge pattern, both orders
@@ -790,7 +839,7 @@ func (c *c08Run) phaseTry() {
 				}
 				c.tryOne([]int{e, q}, nameSets)
 				c.tryOne([]int{q, e}, nameSets)
-				c.r.Count("try-sets-size2-with-edge-pattern", 2)
+				c.count("try-sets-size2-with-edge-pattern", 2)
 			}
 		}
 	}
@@ -826,7 +875,10 @@ func c08ReplayMatchUnit(r *rep.Report, rp c08Replay) {
 				fmt.Sprintf("run=%q skip=%q, case %q: filter.accept=%v, reference %v", rp.Run, rp.Skip, rp.Name, got, want), rp)
 		}
 	case "apply":
-		names, _, _ := c08AllNames()
+		names := rp.Names
+		if len(names) == 0 {
+			names, _, _ = c08AllNames()
+		}
 		var cases []*conformancev1.TestCase
 		var want []string
 		for _, n := range names {
@@ -921,6 +973,9 @@ func TestVerifC08Match(t *testing.T) {
 		"outcome flags: every pattern as known-failing resp. known-flaky x every name; " +
 		"unmatched detection: pattern sets of size 1 (length<=4) and 2 (both orders; length<=3 quick, <=4 thorough) x every library of <=3 names of length<=3 (470, incl. empty), fresh trie per library. " +
 		"Edge alphabet: names \"\", a/, /a, a//b (in the name list; libraries of <=2 names with at least one of them) and patterns \"\", a//b, /a, a/, */, /**, // (every size-1 and size-2 use above; size 3 and unmatched-detection pairs next to patterns of length 1 resp. <=2): \"\" is one empty component. " +
+		"Blank alphabet (a second universe, every phase again): names = all sequences of length 1..2 over the components {\"a\", \"a \", \" a\", \"a<TAB>\", \" \"} (30), patterns = all sequences of length 1..2 over those components + {*, **} (56); " +
+		"sets of size 1, 2 (both orders) and 3 (one-component patterns quick, all thorough), filters 57x57 and pairs on one side, outcome flags, unmatched detection over every library of <=3 one-component names and every library of <=2 names with a two-component name: " +
+		"blanks and tabs are component text like any other, nothing is trimmed from a pattern or a name. " +
 		"Oracle: recursive reference glob from the property text. A pattern set counts as non-trivial when both verdicts (match/no match, accept/reject, error/no error) occur over its names/libraries; sets are distinct by construction."
 	if data := rep.ReplayInput(); data != nil {
 		c08ReplayMatchUnit(r, c08ParseReplay(t, data))
@@ -929,8 +984,21 @@ func TestVerifC08Match(t *testing.T) {
 	c := &c08Run{r: r, u: c08NewUniverse(), deadline: rep.Deadline()}
 	r.Extra["names"] = len(c.u.names)
 	r.Extra["patterns"] = len(c.u.pats)
+	// the same phases over the blank alphabet; its (small) matcher and outcome phases
+	// come before the long filter / unmatched phases of the main universe, so that a
+	// budget stop cannot cut them off
+	main, blank := c.u, c08NewBlankUniverse()
+	r.Extra["blank_alphabet_names"] = len(blank.names)
+	r.Extra["blank_alphabet_patterns"] = len(blank.pats)
 	c.phaseMatch()
 	c.phaseOutcome()
+	c.u = blank
+	c.phaseMatch()
+	c.phaseOutcome()
+	c.u = main
+	c.phaseAccept()
+	c.phaseTry()
+	c.u = blank
 	c.phaseAccept()
 	c.phaseTry()
 }
@@ -1143,6 +1211,7 @@ func TestVerifC08Ambiguity(t *testing.T) {
 		"every ordered pair (known-failing pattern, known-flaky pattern), each side also empty, where a pattern is one of {s/TLS:false, **, */*} followed by every sequence over {a,b,*,**} of length 1..3 (252 patterns); " +
 		"every ordered pair over s/TLS:false/<length 1..2>, **/<length 1>, */*/<length 1> (thorough: all three prefixes with length 1..2) again under each of 67 --run/--skip filters (one --run or one --skip pattern from s/TLS:false/<length 1..2>, **, **/a, **/b, **/a/b; --run x --skip over s/TLS:false/<length 1>; three two-pattern filters), " +
 		"so that the names matched by both sides lie inside, partly inside and wholly outside the selection; " +
+		"plus \"\", three patterns with an empty component and five with a blank / tab at either end or a ` #` inside (they match no permutation: refused); " +
 		"thorough adds every ordered pair of known-failing patterns s/TLS:false/<length 1..2> against every known-flaky pattern of tail length 1..2. " +
 		"Oracle: reference glob (unmatched pattern, --run/--skip included -> error; some permutation matched by both sides -> rejected, whether or not --run/--skip select it; otherwise run() must get as far as starting the client). " +
 		"A case is non-trivial when all patterns match some permutation (so the ambiguity rule decides); cases are distinct by construction."
@@ -1154,6 +1223,9 @@ func TestVerifC08Ambiguity(t *testing.T) {
 	pats := c08AmbiguityPatterns(3, c08Prefix, "**", "*/*")
 	// the empty pattern and patterns with an empty component: they match no permutation, so they must be refused
 	pats = append(pats, "", c08Prefix+"//a", "/"+c08Prefix+"/a", c08Prefix+"/a/")
+	// patterns that differ from a permutation name (or from a matching pattern) by a blank or tab at either
+	// end, and a '#' component: blanks are component text, so they match no permutation and must be refused
+	pats = append(pats, c08Prefix+"/a ", " "+c08Prefix+"/a", c08Prefix+"/*\t", "\t**/b", c08Prefix+"/a #b")
 	r.Extra["patterns"] = len(pats)
 	deadline := rep.Deadline()
 	var k int64
